@@ -643,3 +643,20 @@ Proof.
   intros path_eq cfg L R es Hp HL HR Hf H.
   eapply compare_to_covers; eauto. apply faces_b_ok; auto.
 Qed.
+
+(* ---- finding F3: the refutation witness of the unguarded statement ---- *)
+Definition f3_leaf (o : N) (v : pyval) : node := NLeaf (mkinfo o None false None) v.
+Definition f3_L : node := NMap (mkinfo 0 None true None) [(f3_leaf 1 (PStr "a"), f3_leaf 2 PNone)].
+Definition f3_R : node :=
+  NMap (mkinfo 3 None true None)
+       [(f3_leaf 1 (PStr "a"), NMap (mkinfo 4 None true None) [(f3_leaf 5 (PStr "b"), f3_leaf 6 (PInt 1))])].
+Definition f3_cfg : dcfg := mkdcfg false [] [] None None None None.
+
+Lemma complete_refuted_witness :
+  exists L R es, wf_doc L = true /\ wf_doc R = true /\
+    compare_to path_eq_real f3_cfg L R = Ok es /\ ~ covers_left L es.
+Proof.
+  exists f3_L, f3_R. eexists. split; [reflexivity|]. split; [reflexivity|]. split; [vm_compute; reflexivity|].
+  intros C. destruct (C [RKey (PStr "a")] (mkinfo 2 None false None) PNone eq_refl) as [e [He [Hl _]]].
+  destruct He as [<-|[]]. discriminate Hl.
+Qed.
